@@ -89,9 +89,36 @@ Theorem C07_diags_agree_partial : forall c b all others,
 Proof. exact usage_diags_agree. Qed.
 Print Assumptions C07_diags_agree_partial.
 
-(* the statement aimed at: the same without the layout guards.  Missing: pos_clean, flags_ok and decl_locs_distinct
-   discharged from the layout of parser output (C04: distinct, ordered token spans; they fail on the C04 column-restart
-   finding, see C07_pos_filter_refuted) *)
+(* pos_clean follows from the layout hypothesis Laid of Spec/LuaScope.v (in this model the assignment target is resolved
+   before cgAssignStat's re-pointing, so class B4 does not disturb the first pass) *)
+From LH Require Spec.LuaScope.
+From LH Require Import Proofs.UsageBindLaid.
+
+Theorem C07_laid_pos_clean : forall W b,
+  in_fragment b = true -> LuaScope.laid_b W b = true -> pos_clean b = true.
+Proof. exact usage_laid_pos_clean. Qed.
+Print Assumptions C07_laid_pos_clean.
+
+(* flags_ok and decl_locs_distinct follow from Laid as well (identifiers at different places have different Locs) *)
+From LH Require Import Proofs.UsageBindLaidDistinct.
+Theorem C07_laid_distinct : forall W b,
+  in_fragment b = true -> LuaScope.laid_b W b = true -> decl_locs_distinct b = true /\ flags_ok b = true.
+Proof. exact usage_laid_distinct. Qed.
+Print Assumptions C07_laid_distinct.
+
+(* the diagnostics of the file agree, as a set, with the reference on every Laid chunk of the fragment outside the
+   classes multi_local_order (classA_ok) and later_elsewhere: type 2/3 iff the read binds to no local and no file /
+   built-in / ignored name defines it (3 iff only this file, later, top level); type 4 iff no read binds to the
+   declaration and it is not exempt; type 17 for the assignments to such a declaration *)
+Theorem C07_diags_agree_laid_partial : forall W c b all others,
+  in_fragment b = true -> classA_ok b = true -> LuaScope.laid_b W b = true -> later_elsewhere c b others = false ->
+  (forall n, name_mem n all = name_mem n (gnames (s1_gmap (first_pass c b))) || name_mem n others) ->
+  forall x, In x (go_diags c b all) <-> In x (spec_diags c b others).
+Proof. exact usage_diags_agree_laid_only. Qed.
+Print Assumptions C07_diags_agree_laid_partial.
+
+(* the statement aimed at: the same without the layout hypothesis.  Missing: Laid for the parser's output (C04; it fails
+   on the column-restart finding, see C07_pos_filter_refuted, and where an identifier directly follows a bracket) *)
 Definition C07_diags_full : Prop := forall c b all others,
   in_fragment b = true -> classA_ok b = true -> later_elsewhere c b others = false ->
   (forall n, name_mem n all = name_mem n (gnames (s1_gmap (first_pass c b))) || name_mem n others) ->
@@ -104,6 +131,7 @@ Definition w_pos_example : list N := [108; 111; 99; 97; 108; 32; 97; 44; 32; 98;
 Definition b_pos_example : block := Eval vm_compute in block_of w_pos_example.
 Example C07_positive_guards_inhabited :
   in_fragment b_pos_example = true /\ classA_ok b_pos_example = true /\ pos_clean b_pos_example = true /\
+  LuaScope.laid_b 1000%Z b_pos_example = true /\
   flags_ok b_pos_example = true /\ decl_locs_distinct b_pos_example = true /\
   later_elsewhere demo_cfg b_pos_example [] = false /\
   length (file_occs b_pos_example) = 27%nat /\
